@@ -294,6 +294,10 @@ func (r *reader) readChunk() {
 	// We have a MTrk
 	if chunk.Type() == "MTrk" {
 		r.log("is track chunk")
+		if int(r.processedTracks)+1 >= int(r.numTracks) {
+			r.error = fmt.Errorf("invalid SMF data: found more track chunks than the %v announced in the header", r.numTracks)
+			return
+		}
 		r.processedTracks++
 		r.expectChunk = false
 		// we are done, lets go to the track events
